@@ -6,6 +6,7 @@ package gabi
 
 import (
 	"slices"
+	"sync"
 
 	"github.com/go-errors/errors"
 	"github.com/privacybydesign/gabi/big"
@@ -22,7 +23,8 @@ type Credential struct {
 	Attributes           []*big.Int          `json:"attributes"`
 	NonRevocationWitness *revocation.Witness `json:"nonrevWitness,omitempty"`
 
-	nonrevCache chan *NonRevocationProofBuilder
+	nonrevCache     chan *NonRevocationProofBuilder
+	nonrevCacheLock sync.Mutex // guards the (lazy) creation of nonrevCache
 }
 
 // DisclosureProofBuilder is an object that holds the state for the protocol to
@@ -192,12 +194,24 @@ func (ic *Credential) CreateDisclosureProofBuilder(
 	return d, nil
 }
 
+// nonrevCacheChan returns the channel holding the prepared nonrevocation proof builder, if any,
+// creating it first if requested. The channel is created lazily by the first NonrevPrepareCache()
+// while other goroutines may already be proving with this credential.
+func (ic *Credential) nonrevCacheChan(create bool) chan *NonRevocationProofBuilder {
+	ic.nonrevCacheLock.Lock()
+	defer ic.nonrevCacheLock.Unlock()
+	if ic.nonrevCache == nil && create {
+		ic.nonrevCache = make(chan *NonRevocationProofBuilder, 1)
+	}
+	return ic.nonrevCache
+}
+
 func (ic *Credential) nonrevConsumeBuilder() (*NonRevocationProofBuilder, error) {
 	// Using either the channel value or a new one ensures that our output is used at most once,
 	// lest we totally break security: reusing randomizers in a second session makes it possible
 	// for the verifier to compute our revocation witness e from the proofs
 	select {
-	case b := <-ic.nonrevCache:
+	case b := <-ic.nonrevCacheChan(false):
 		return b, b.UpdateCommit(ic.NonRevocationWitness)
 	default:
 		return ic.NonrevBuildProofBuilder()
@@ -211,13 +225,11 @@ func (ic *Credential) NonrevPrepareCache() error {
 	if ic.NonRevocationWitness == nil {
 		return nil
 	}
-	if ic.nonrevCache == nil {
-		ic.nonrevCache = make(chan *NonRevocationProofBuilder, 1)
-	}
+	cache := ic.nonrevCacheChan(true)
 	var b *NonRevocationProofBuilder
 	var err error
 	select {
-	case b = <-ic.nonrevCache:
+	case b = <-cache:
 		Logger.Trace("updating existing nonrevocation commitment")
 		err = b.UpdateCommit(ic.NonRevocationWitness)
 	default:
@@ -231,7 +243,7 @@ func (ic *Credential) NonrevPrepareCache() error {
 	// put it back in the channel, waiting to be consumed by nonrevConsumeBuilder()
 	// if the channel has already been populated by another goroutine in the meantime we just discard
 	select {
-	case ic.nonrevCache <- b:
+	case cache <- b:
 	default:
 	}
 
